@@ -144,6 +144,9 @@ type ClusterOpts struct {
 	// PointStore routes every operation of every node's wallet store through verifhook.Point ("wstore.<op>"), which is a
 	// scheduling point under the explorer and nothing otherwise.
 	PointStore bool
+	// Unknown (optional): Unknown[k] lists peers that instance k's peer table lacks (an instance that has not been told of
+	// a peer added since: configurations are rolled out one instance at a time).
+	Unknown map[uint64][]uint64
 }
 
 // NewCluster builds the instances.
@@ -169,9 +172,19 @@ func NewCluster(o ClusterOpts) (*Cluster, error) {
 			genPass = fmt.Sprintf("gen-%d", id)
 			acctPasses = []string{genPass}
 		}
+		nodePeers := peersMap
+		if len(o.Unknown[id]) > 0 {
+			nodePeers = map[uint64]string{}
+			for pid, addr := range peersMap {
+				nodePeers[pid] = addr
+			}
+			for _, pid := range o.Unknown[id] {
+				delete(nodePeers, pid)
+			}
+		}
 		r, err := NewSignerRig(SignerOpts{GenPass: genPass, AcctPasses: acctPasses, PointStore: o.PointStore,
 			Wallets: []string{"Wallet 1"}, DistWallets: []string{DistWallet}, Permissions: perms, Full: true,
-			ProcessID: id, PeersMap: peersMap, Sender: &clusterSender{c: c, from: n}, GenTimeout: o.GenTimeout,
+			ProcessID: id, PeersMap: nodePeers, Sender: &clusterSender{c: c, from: n}, GenTimeout: o.GenTimeout,
 			PeersWrap: func(p peers.Service) peers.Service { return &orderedPeers{Service: p, c: c, node: id} },
 		})
 		if err != nil {
